@@ -197,7 +197,15 @@ def run_unit(u, desc, tier, seed):
         disc, lin2, cond = discriminant(f, group)
         if nsol == 0:
             # completeness (a): no solution returned => none exists  <=>  a^2+b^2 < c^2 on this path
-            P('complete/none-returned=>none-exists(or tangent)', zc.cmp0(disc - lift(Fraction(1, 10 ** 6)) * lin2, '<='))
+            goal_none = zc.cmp0(disc - lift(Fraction(1, 10 ** 6)) * lin2, '<=')
+            P('complete/none-returned=>none-exists(or tangent)', goal_none)
+            # concretisation ladder: the same obligation with theta pinned to exact rational points of the unit circle at low Bragg angle,
+            # where absolute tolerances in the code bite (reported as decided on this grid only)
+            for tt in (Fraction(1, 400), Fraction(1, 120), Fraction(1, 30)):
+                cth, sth = (1 - tt * tt) / (1 + tt * tt), 2 * tt / (1 + tt * tt)
+                pin_th = [zc.var('ct') == smt.RV(cth), zc.var('st') == smt.RV(sth)]
+                u.prove('C09/%s.%s/complete/none-returned=>none-exists[theta=2atan(%s)]' % (modname, FN[group], tt), pre + pin_th, goal_none, replay=rp,
+                        detail='ladder point theta = %.3f deg on path %s' % (float(2 * __import__('math').degrees(__import__('math').atan(float(tt)))), tag), timeout=8, cvc5_timeout=8)
             continue
         n2 += 1
         if nsol != 2:
